@@ -103,6 +103,16 @@ CLAIMS = {
          "MultiSubscription/ZipSubscription and their _threads forms, and is_closed() sampled after every label on 12 timed operators, judged by "
          "the extracted predicates alg_ok / closed_sound_ok and compared with the model. PARTIAL: ref-count and finalizer subscriptions are "
          "decided under C11 / C15.", "DESIGN.md section 5 C17"),
+ "C15": ("Theorems: C15_exactly_once_right_after (for every sequence of items, completes, errors and unsubscriptions, each repeated at will, "
+         "with finalize alone or with take(n) before or after it: the callback runs in the segment of the first trigger - first unsubscription, "
+         "first terminal reaching the operator, or the item completing an upstream take - as the last thing there, and nowhere else), "
+         "C15_at_most_once, C15_once_when_unsubscribed, C15_once_when_terminated, C15_never_before; C15_race_once / C15_race_at_most_once: "
+         "for finalize_threads, any interleaving of any number of threads each taking the shared cell runs the callback exactly once, in the "
+         "first take. Each run executes every stimulus sequence <= 5 (thorough 7) over a subject and every create() script <= 4 (6), 7 "
+         "shapes, finalize and finalize_threads, explicit unsubscribe and dropped guard, with the callback's position observed through "
+         "per-stimulus markers, judged by the extracted predicate and compared with the model. PARTIAL for the racing clause: the atomicity of "
+         "the take (Mutex in MutArc) is modelled, not verified; real-thread rounds (terminating thread vs unsubscribing thread) sample it.",
+         "DESIGN.md section 5 C15"),
 }
 
 checks = []
